@@ -342,6 +342,11 @@ def special_pool():
                                                ("x", ["obj", c2, [["a", f(1.5)], ["data", ["dict", [["k", ["arr", "int8", [], 4, "C"]]]]], ["x", ["path", "p/q"]]]]),
                                                ("data", ["list", [["obj", c1, [["b", ["tensor", "float32", [2], True, False, 4]]]], ["obj", c2, [["x", ["set", [i(3), i(4)]]]]]]]),
                                                cls=c1)))
+    # tensorboard SummaryWriter (metadata only: re-created with the saved log_dir / queue / flush / suffix), as attribute
+    # and inside list / dict / set
+    P.append(("summarywriter", root(("w", ["summarywriter", "tb"]), ("l", ["list", [["summarywriter", "tb2", 3, 7, ".x"], ["int", 1]]]),
+                                    ("d", ["dict", [["w", ["summarywriter", "tb3", 10, 60, ""]]]]),
+                                    ("t", ["tuple", [["summarywriter", "tb4"], ["logger", "c01.sw", 20]]]), ("x", ["int", 1]))))
     P.append(("array-dtypes", root(*[("a%d" % n, ["arr", dt, sh, 40 + n, lay]) for n, (dt, sh, lay) in enumerate(
         [(d, [2, 3], "C") for d in ARR_DTYPES] + [("float64", [4, 4], "F"), ("int32", [3], "strided"), ("float32", [2, 1, 2], "F"),
                                                   ([["a", "<i4"], ["b", "<f8"]], [3], "C")])])))
@@ -350,10 +355,7 @@ def special_pool():
 
 def oracle_only_pool():
     """kinds the Coq model has no constructor for: judged by the oracle alone (same kind of object back)"""
-    return [
-        ("summarywriter", root(("w", ["summarywriter", "tb"]), ("l", ["list", [["summarywriter", "tb2"], ["int", 1]]]),
-                               ("d", ["dict", [["w", ["summarywriter", "tb3"]]]]), ("x", ["int", 1]))),
-    ]
+    return []
 
 
 def outside_pool():
